@@ -88,14 +88,14 @@ ALLCFG = ["asm", "asm+nobmi2", "asm-clang", "portable64", "portable32"]
 
 PROPS["C02"] = {
     "translators": ["consts"],
-    "lean_targets": ["JediVerif.Properties.C02"],
-    "theorems": lambda: module_theorems("JediVerif.Properties.C02", "Jedi.C02"),
+    "lean_targets": ["JediVerif.Properties.C02"] + targets_if_exist("JediVerif.Properties.C02b"),
+    "theorems": lambda: module_theorems("JediVerif.Properties.C02", "Jedi.C02") + module_theorems("JediVerif.Properties.C02b", "Jedi.C02"),
     "streams": lambda seed, tier: [
         {"cfg": c, "name": g, "lines": no_alias(gen(g, seed, n if tier == "quick" else 6 * n, tier))}
         for c in cfgs(tier, ["asm", "portable64", "portable32"], ALLCFG + ["asan", "asan-portable"])
         for (g, n) in (("fp", 10), ("bigint", 4))],
-    "hypotheses": ["H-qprime / r prime (only for inverse, Legendre, square roots: those are compared with the Spec by the correspondence, not yet theorems)"],
-    "not_modelled": "exponentiate/fp_inverse/legendre/square_root/random/hash_reduce/byte I/O: hand models exist only in the judge (Spec); RESIST_SIDE_CHANNELS variants out of scope",
+    "hypotheses": [],
+    "not_modelled": "'uniform' for random is the first-accepted-draw statement, not a probability statement; Fq::compare orders Montgomery representatives (modelled as coded in Impl/Encode.lean)",
 }
 
 PROPS["C19"] = {
@@ -188,8 +188,8 @@ PROPS["C08"] = {
 }
 PROPS["C09"] = {
     "translators": ["consts"],
-    "lean_targets": prop_modules("C09"),
-    "theorems": lambda: thms("C09"),
+    "lean_targets": prop_modules("C09", extra=("JediVerif.Properties.C09b",)),
+    "theorems": lambda: thms("C09", extra=(("JediVerif.Properties.C09b", "Jedi.C09"),)),
     "streams": stream_set([("encoding", 6)], ["asm", "portable64"], ALLCFG + ["asan"], scale=3),
 }
 PROPS["C10"] = {
@@ -214,8 +214,8 @@ PROPS["C13"]["filter"] = lambda l: l.startswith(("wk_sign", "wk_verify", "wk_sig
 PROPS["C14"]["filter"] = lambda l: l.startswith(("wk_adjust", "wk_precompute", "wk_encryptpre", "wk_signpre", "wk_verifypre"))
 PROPS["C15"] = {
     "translators": ["consts", "layout2lean"],
-    "lean_targets": prop_modules("C15"),
-    "theorems": lambda: thms("C15"),
+    "lean_targets": prop_modules("C15", extra=("JediVerif.Properties.C15b",)),
+    "theorems": lambda: thms("C15", extra=(("JediVerif.Properties.C15b", "Jedi.C15"),)),
     "streams": stream_set([("marshal", 4), ("lqibe", 4)], ["asm"], ["asm", "portable64", "portable32", "asan"], scale=1),
     "filter": lambda l: not l.startswith("wk_len") and not l.startswith(("lq_encrypt", "lq_decrypt", "lq_keygen")),
 }
